@@ -76,9 +76,21 @@ func Step(v *vrt.Ctx) {
 
 	st := state.NewState(8)
 	ca := cache.NewCache()
+	// node names on the stack may repeat (a node can be entered again deeper
+	// down, the entry node included), only not directly under itself
+	prev := ""
 	for i := 0; i < depth; i++ {
-		st.Down(names[i])
+		n := names[v.Choice("node", 3)]
+		if i == 0 {
+			n = names[0]
+		}
+		v.Assume(n != prev)
+		st.Down(n)
 		ca.Push()
+		prev = n
+	}
+	if t == "tgt" && prev == "tgt" {
+		return
 	}
 	start := pos{append([]string{}, st.ExecPath...), v.U16("startidx")}
 	v.Assume(start.idx < 65535)
@@ -137,7 +149,7 @@ func Seq(v *vrt.Ctx) {
 	}
 	rs.Node("root", "root", node("aa"))
 	rs.Node("aa", "aa", node("bb"))
-	rs.Node("bb", "bb", node("aa"))
+	rs.Node("bb", "bb", node("root")) // the entry node can be entered again deeper down
 	rs.Node("_catch", "catch", app.Code().Halt().InCmp("_", "*").Bytes())
 	en := engine.NewEngine(engine.Config{Root: "root"}, rs)
 	st := state.NewState(0)
@@ -148,7 +160,7 @@ func Seq(v *vrt.Ctx) {
 	v.Assume(err == nil)
 	en.Flush(ctx, &app.Sink{})
 	cur := pos{[]string{"root"}, 0}
-	child := map[string]string{"root": "aa", "aa": "bb", "bb": "aa"}
+	child := map[string]string{"root": "aa", "aa": "bb", "bb": "root"}
 	for i := 0; i < k; i++ {
 		in := v.U8("input")
 		v.Assume(in >= '1' && in <= '7')
